@@ -14,6 +14,8 @@ use rosu_map::section::timing_points::{ControlPoints, DifficultyPoint, EffectPoi
 
 pub struct C13;
 
+static PAIRS: crate::engine::PairTable = crate::engine::PairTable::new(&["add_t", "add_d", "add_e", "add_s"]);
+
 const ALPHA_TIMES: [f64; 4] = [-1.0, 0.0, 1.0, 2.0];
 
 fn enum_count(maxlen: u32) -> u64 {
@@ -141,7 +143,14 @@ impl Scenario for C13 {
     fn execute(&self, plan: &Plan, st: &mut Stats) -> Result<(), Violation> {
         let mut cp = ControlPoints::default();
         let mut m = MC::default();
+        let mut prev: Option<usize> = None;
         for (i, op) in plan.ops.iter().enumerate() {
+            if let Some(k) = PAIRS.idx(&op.k) {
+                if let Some(p) = prev {
+                    st.inc(PAIRS.name(p, k));
+                }
+                prev = Some(k);
+            }
             let t = op.arg(0);
             if t.is_nan() || (t == 0.0 && t.is_sign_negative()) {
                 continue; // outside the alphabet (minimiser may produce it)
